@@ -98,6 +98,9 @@ RangeTok2(b, c) == LET d == IF c > b THEN 1 ELSE 0 - 1  n == (IF c > b THEN c - 
   RngTok(Dec(b) \o <<32, 46, 46, 46, 32>> \o Dec(c), [i \in 1..n |-> IV(b + (i - 1) * d)])
 RangeTokF(am, bm, k, n) == LET d == bm - am IN       \* floats: "0.000 0.250 ... 1.000"
   RngTok(DecDyadic(am, k) \o <<32>> \o DecDyadic(bm, k) \o <<32, 46, 46, 46, 32>> \o DecDyadic(bm + (n - 1) * d, k), <<FV(am, k)>> \o [i \in 1..n |-> FV(bm + (i - 1) * d, k)])
+\* a run of plain values written out in full ("3 4 5 6 7"): nothing special to the scanner, but the PRINTER compresses it again when the scanned
+\* values are printed - behind a range it must then choose whether the second value has to be spelled out
+PlainRun(a, d, n) == Tok(Concat([i \in 1..n |-> Dec(a + (i - 1) * d) \o (IF i < n THEN <<32>> ELSE <<>>)]), [i \in 1..n |-> IV(a + (i - 1) * d)])
 \* arrays: "[ e1 e2 ... ]"; elements are tokens; the blanks inside are part of the spelling choice
 ArrTok(elems, inner) == Tok(<<91>> \o inner \o Concat([i \in 1..Len(elems) |-> elems[i].txt \o (IF i < Len(elems) THEN <<32>> ELSE <<>>)]) \o inner \o <<93>>,
                             << [t |-> "a", el |-> Concat([i \in 1..Len(elems) |-> elems[i].val])] >>)
